@@ -478,6 +478,11 @@ func genC10(r *rand.Rand, tier string, idx int) *World {
 			}
 			ct := pick(r, "main", "main", "side")
 			n.Annotations[fmt.Sprintf(edsv1.ExtendedDaemonSetRessourceNodeAnnotationKey, "ns1", "foo", ct)] = pick(r, `{"requests":{"cpu":"300m"}}`, `{"requests":{"cpu":`, `{"limits":{"memory":"1Gi"}}`)
+			if chance(r, 0.3) {
+				// overrides for both containers, the first one malformed: the second still applies
+				n.Annotations[fmt.Sprintf(edsv1.ExtendedDaemonSetRessourceNodeAnnotationKey, "ns1", "foo", "main")] = `{"requests":{"cpu":`
+				n.Annotations[fmt.Sprintf(edsv1.ExtendedDaemonSetRessourceNodeAnnotationKey, "ns1", "foo", "side")] = `{"requests":{"cpu":"350m"}}`
+			}
 		}
 	}
 	w.Extra["perturb"] = pick(r, "setting", "setting", "override", "template", "none")
@@ -593,6 +598,10 @@ func genC18(r *rand.Rand, tier string, idx int) *World {
 		}
 		if chance(r, 0.07) && w.Extra["unusable"] == "" && idx%4 == 3 {
 			sd.Selector, sd.ExprKey, sd.ExprOp, sd.ExprVals = nil, "zone", "In", nil // In with no values: unusable
+			if chance(r, 0.5) {
+				// an operator that does not exist, next to a usable requirement: unusable as a whole
+				sd.Selector, sd.ExprKey, sd.ExprOp, sd.ExprVals = map[string]string{"zone": pick(r, "a", "b")}, "pool", "Near", []string{"x"}
+			}
 			w.Extra["unusable"] = sd.Name
 		}
 		if chance(r, 0.2) {
@@ -655,7 +664,7 @@ func genC19(r *rand.Rand, tier string, idx int) *World {
 		c.CanaryTimeout = ""
 		c.NodeSelector = nil
 	}
-	w.Extra["final"] = pick(r, "canary-pause", "canary-unpause", "canary-validate", "canary-fail", "ru-pause", "freeze", "seq:canary-pause,canary-unpause,canary-pause", "seq:canary-unpause,canary-pause,canary-unpause")
+	w.Extra["final"] = pick(r, "canary-pause", "canary-unpause", "canary-validate", "canary-fail", "ru-pause", "freeze", "seq:canary-pause,canary-unpause,canary-pause", "seq:canary-unpause,canary-pause,canary-unpause", "seq0:canary-pause,canary-unpause,canary-pause")
 	w.Extra["c02prop"] = "C19"
 	if idx%3 == 1 {
 		w.Extra["finalFault"] = pick(r, "reject", "lost", "crash-before", "crash-after")
@@ -731,6 +740,39 @@ func bodyC19(s *Sim) {
 		return
 	}
 	cmd := s.W.Extra["final"]
+	if strings.HasPrefix(cmd, "seq0:") {
+		// pause, reconciles, then unpause and pause again before any controller has reacted: the last
+		// command is judged against the annotations (the status still tells the older story)
+		cs := strings.Split(strings.TrimPrefix(cmd, "seq0:"), ",")
+		if e.Status.Canary == nil {
+			return
+		}
+		canary := e.Status.Canary.ReplicaSet
+		if r := s.Store.GetERS(def.NS, canary); r == nil || ersCondTrue(&r.Status, edsv1.ConditionTypeCanaryFailed) {
+			return
+		}
+		s.RunCLI(cs[0], key)
+		s.fairRounds(3)
+		if e2 := s.Store.GetEDS(def.NS, def.Name); e2 == nil || e2.Status.Canary == nil || e2.Status.Canary.ReplicaSet != canary {
+			return
+		}
+		if t := s.RunCLI(cs[1], key); t.Err != nil {
+			return
+		}
+		cur := s.Store.GetEDS(def.NS, def.Name)
+		t := s.RunCLI(cs[2], key)
+		s.Stats.NonVacuous["C19.back-to-back"]++
+		if t.Err != nil && cur != nil && cur.Annotations[edsv1.ExtendedDaemonSetCanaryPausedAnnotationKey] != "true" && cur.Status.Canary != nil && !t.Faulted && !t.Conflict {
+			s.Violate("C19", "refusal", "pause", "canary-pause right after canary-unpause refused (%v) although the canary %s is active and canary-paused is %q", t.Err, canary, cur.Annotations[edsv1.ExtendedDaemonSetCanaryPausedAnnotationKey])
+		}
+		s.fairRounds(3)
+		if e3 := s.Store.GetEDS(def.NS, def.Name); t.Err == nil && e3 != nil && e3.Status.Canary != nil && e3.Status.Canary.ReplicaSet == canary {
+			if r := s.Store.GetERS(def.NS, canary); r != nil && !ersCondTrue(&r.Status, edsv1.ConditionTypeCanaryFailed) && e3.Status.State != edsv1.ExtendedDaemonSetStatusStateCanaryPaused {
+				s.Violate("C19", "obeys", "sequence-pause", "after pause, unpause, pause (the last two back to back) the state is %q, expected Canary Paused", e3.Status.State)
+			}
+		}
+		return
+	}
 	if strings.HasPrefix(cmd, "seq:") {
 		// a sequence of up to three commands, each followed by fair reconciles and judged
 		for i, c := range strings.Split(strings.TrimPrefix(cmd, "seq:"), ",") {
